@@ -40,6 +40,10 @@ EXCLUDED = ["derivatives", "code", "sourcedata", "stimuli", "phenotype"]
 
 
 def col_def(draw, col):
+    if draw(st.integers(0, 4)) == 0:
+        # a level that re-describes the column without annotating it: it still replaces the whole entry from above
+        return draw(st.sampled_from([{"Description": "described here, not annotated"},
+                                     {"Levels": {"go": "a go trial", "stop": "a stop trial"}}]))
     if col == "val":
         return {"HED": draw(st.sampled_from(["Label/#", "Age/#", "Item-count/#", "Qzx-bad/#"]))}
     keys = ["go", "stop"]
